@@ -80,6 +80,7 @@ FAMILIES = {
     "camel": {"module": "CamelCase", "judge": "CamelCaseTrace"},
     "typeref": {"module": "TypeRef", "judge": "TypeRefTrace"},
     "template": {"module": "Template", "judge": "TemplateTrace"},
+    "universe": {"module": "MC_Universe", "judge": "UniverseTrace"},
     "dispatch": {"module": "Dispatch", "judge": "DispatchTrace"},
     "pipeline": {"module": "MC_PipelineHist", "judge": "PipelineTrace", "by_history": True},
     "tracker": {"module": "MC_ImportTracker", "judge": "ImportTrackerTrace"},
@@ -136,6 +137,38 @@ def check_C19(ctx):
 
 def _depth(t):
     return 1 + max([_depth(a) for a in t.get("args", [])] or [0])
+
+
+def check_C13(ctx):
+    t = ctx.tier
+    res = run_family(ctx, "universe", "MC_Universe", ["Universe_gen_%s.cfg" % t], "UniverseTrace", rand_n=200 if ctx.quick() else 3000,
+                     a_cfgs=["Universe_A1.cfg", "Universe_A2.cfg"], shard=700)
+    fails = vlib.collect_failures(res["trace"], res["bad"], "universe", only_prefix="C13")
+    tr = res["trace"]
+    corpus = [r for r in tr if r["case"]["kind"] == "corpus"]
+    cov = {
+        "traces_validated_against_impl": len(tr),
+        "evaluations": len(tr),
+        "distinct_nontrivial": _distinct(tr, lambda r: r["case"]["kind"] == "corpus" or len(r["case"]["features"]) >= 2,
+                                         key=lambda r: json.dumps([r["case"]["features"], r["case"].get("pkg") if r["case"]["kind"] == "corpus" else ""])),
+        "rule": "Loop A: filling name-keyed tables from an arbitrarily ordered Defs map equals the package-scope view for every order (with the scope filter; counterexample "
+                "without), and DFS registration over an import DAG resolves every import for every visiting order and root set (iff the package object is created after its "
+                "imports). Loop B: every selection of up to the tier bound out of 22 source features (shadowing local types / aliases / constants, type parameters named like "
+                "package-level types, generic and pointer receivers, grouped declarations, init and blank functions, interface types, an import chain) is one synthetic package, loaded "
+                "60 per module with types.Load; plus the real corpus: every package in the dependency closure of gengo's own module. For each package the key sets of Types/Constants/"
+                "Functions, object identity, MethodsOf vs types.Named.Method, Imports() vs Universe.Package, LocateInPackage and SourceDir are compared with go/types / file positions. "
+                "Non-trivial = corpus packages and synthetic packages with >= 2 features.",
+        "exhaustive": True,
+        "corpus_packages": len(corpus),
+        "corpus_names_compared": sum(len(r["obs"]["scope_types"]) + len(r["obs"]["scope_consts"]) + len(r["obs"]["scope_funcs"]) for r in corpus),
+        "samples": [{"case": r["case"], "obs": {k: r["obs"][k] for k in ("types", "scope_types", "funcs", "methods", "imports_nil")}} for r in tr[:: max(1, len(tr) // 3)][:3]],
+    }
+    return vlib.finish(ctx, "model_checking", cov, [
+        "go/types package scopes, types.Named.Method and go/packages file positions are the oracle ('the type checker's view')",
+        "MethodsOf is compared for non-interface named types only (whether interface methods are 'declared methods' is left open by the statement)",
+        "init and blank-named functions are set aside as the statement says",
+        "map iteration orders of the real loader are sampled, all orders only on the model",
+    ], fails)
 
 
 def check_C15(ctx):
@@ -444,6 +477,7 @@ CHECKS = {
     "C08": check_C08,
     "C09": check_C09,
     "C12": check_C12,
+    "C13": check_C13,
     "C15": check_C15,
     "C19": check_C19,
     "C20": check_C20,
